@@ -21,8 +21,9 @@ CLAIMED = {
          'final scope with the mirror and with an independent per-thread interpreter.',
          BASE + 'Partial: that the real stack is per-thread (threading.local) is a runtime fact tied by correspondence only; '
          'scheduling points are at block entry / normal exit / observation / raise, unwinding is one turn.'),
- 'C10': ('Theorems vararg_required_rejected / missing_reported (exact list, signature order, stated against the overlay) / '
-         'all_filled_passes / marker_never_delivered / required_sig_validation hold for every signature, marker placement, store and scope; '
+ 'C10': ('Theorems vararg_required_rejected / missing_reported (exact list, signature order, stated against the overlay; a binding that is the '
+         'marker itself counts as missing) / all_filled_passes / bound_marker_fails / marker_never_delivered (unconditional since D52) / '
+         'required_sig_validation hold for every signature, marker placement, store and scope; '
          'the wrapper mirror is tied to gin.config by generated calls with markers in every position; an independent Python statement of '
          'C10 (exact missing list parsed from the error, body not run, marker never received) is evaluated on the implementation.',
          BASE + 'Modelled, not verified: inspect signatures, Python argument binding; the missing list is parsed from the error message.'),
